@@ -214,8 +214,8 @@ func (d *Decoder) unmarshal(val reflect.Value, tagType byte) error {
 		if aryLen < 0 {
 			return errors.New("byte array len less than 0")
 		}
-		ba := make([]byte, aryLen)
-		if _, err = io.ReadFull(d.r, ba); err != nil {
+		ba, err := readBytes(d.r, int(aryLen))
+		if err != nil {
 			return err
 		}
 
@@ -276,9 +276,12 @@ func (d *Decoder) unmarshal(val reflect.Value, tagType byte) error {
 
 		buf := val
 		if vt.Kind() == reflect.Slice {
-			buf = reflect.MakeSlice(vt, int(aryLen), int(aryLen))
+			buf = makeSlice(vt, int(aryLen))
 		}
 		for i := 0; i < int(aryLen); i++ {
+			if i == buf.Len() {
+				buf = growSlice(buf, int(aryLen))
+			}
 			value, err := d.readInt32()
 			if err != nil {
 				return err
@@ -313,9 +316,12 @@ func (d *Decoder) unmarshal(val reflect.Value, tagType byte) error {
 		switch vt.Elem().Kind() {
 		case reflect.Int64:
 			if vt.Kind() == reflect.Slice {
-				buf = reflect.MakeSlice(vt, int(aryLen), int(aryLen))
+				buf = makeSlice(vt, int(aryLen))
 			}
 			for i := 0; i < int(aryLen); i++ {
+				if i == buf.Len() {
+					buf = growSlice(buf, int(aryLen))
+				}
 				value, err := d.readInt64()
 				if err != nil {
 					return err
@@ -327,9 +333,12 @@ func (d *Decoder) unmarshal(val reflect.Value, tagType byte) error {
 			}
 		case reflect.Uint64:
 			if vt.Kind() == reflect.Slice {
-				buf = reflect.MakeSlice(vt, int(aryLen), int(aryLen))
+				buf = makeSlice(vt, int(aryLen))
 			}
 			for i := 0; i < int(aryLen); i++ {
+				if i == buf.Len() {
+					buf = growSlice(buf, int(aryLen))
+				}
 				value, err := d.readInt64()
 				if err != nil {
 					return err
@@ -364,9 +373,9 @@ func (d *Decoder) unmarshal(val reflect.Value, tagType byte) error {
 		default:
 			return errors.New("cannot parse TagList as " + vk.String())
 		case reflect.Interface:
-			buf = reflect.ValueOf(make([]any, listLen))
+			buf = makeSlice(reflect.TypeOf([]any(nil)), int(listLen))
 		case reflect.Slice:
-			buf = reflect.MakeSlice(val.Type(), int(listLen), int(listLen))
+			buf = makeSlice(val.Type(), int(listLen))
 		case reflect.Array:
 			if vl := val.Len(); vl < int(listLen) {
 				return fmt.Errorf(
@@ -376,6 +385,9 @@ func (d *Decoder) unmarshal(val reflect.Value, tagType byte) error {
 			buf = val
 		}
 		for i := 0; i < int(listLen); i++ {
+			if i == buf.Len() { // only a slice can be shorter than listLen here
+				buf = growSlice(buf, int(listLen))
+			}
 			if err := d.unmarshal(buf.Index(i), listType); err != nil {
 				return err
 			}
@@ -492,6 +504,40 @@ func (d *Decoder) unmarshal(val reflect.Value, tagType byte) error {
 	}
 
 	return nil
+}
+
+// maxPrealloc is the number of bytes or elements allocated for a declared
+// length before any of the announced data has been read. Longer payloads are
+// read in steps that at most double the buffer, so that a few bytes of input
+// declaring a length of 2^31-1 fail with an EOF instead of allocating gigabytes.
+const maxPrealloc = 1 << 16
+
+// readBytes reads exactly n bytes from r.
+func readBytes(r io.Reader, n int) ([]byte, error) {
+	buf := make([]byte, min(n, maxPrealloc))
+	for read := 0; ; {
+		if _, err := io.ReadFull(r, buf[read:]); err != nil {
+			if err == io.EOF && read > 0 {
+				err = io.ErrUnexpectedEOF
+			}
+			return nil, err
+		}
+		if read = len(buf); read == n {
+			return buf, nil
+		}
+		buf = append(buf, make([]byte, min(n-read, read))...)
+	}
+}
+
+// makeSlice returns a slice of type t for n elements, of which at most maxPrealloc are allocated yet.
+func makeSlice(t reflect.Type, n int) reflect.Value {
+	return reflect.MakeSlice(t, min(n, maxPrealloc), min(n, maxPrealloc))
+}
+
+// growSlice extends s, which is shorter than n, by at most its own length.
+func growSlice(s reflect.Value, n int) reflect.Value {
+	k := min(n-s.Len(), s.Len())
+	return reflect.AppendSlice(s, reflect.MakeSlice(s.Type(), k, k))
 }
 
 // indirect walks down v allocating pointers as needed,
